@@ -147,10 +147,14 @@ Section Defs.
     && forallb copula_prefix_ok (gen_copulas E)
     && forallb NC digits.
 
-  (* ---- atoms the formatter prints for well-formed terms ---- *)
+  (* what the name scan needs of a non-empty name *)
+  Definition scan_pre (n : str) : bool :=
+    forallb NC n && negb (ends [45] n) && negb (existsb (fun c => has_infix c n) (gen_copulas E)).
+
+  (* ---- atoms the formatter prints for well-formed terms (and a placeholder followed by a harmless name) ---- *)
   Definition satom_ok (arm : nat) (name : str) : bool :=
     match nth_error parse_atom_arms arm with
-    | Some (_, AIUnit _) => match name with [] => true | _ => false end
+    | Some (_, AIUnit _) => match name with [] => true | _ => scan_pre name end
     | Some (_, AIName _) => name_ok ia E name
     | Some (_, AINum _) => nonempty name && forallb is_ascii_digit name
     | None => false
@@ -170,9 +174,6 @@ Section Defs.
     | KStmt arm x y => is_some (nth_error parse_statement_arms arm) && katoms_ok x && katoms_ok y
     end.
 
-  (* what the name scan needs of a non-empty name *)
-  Definition scan_pre (n : str) : bool :=
-    forallb NC n && negb (ends [45] n) && negb (existsb (fun c => has_infix c n) (gen_copulas E)).
 End Defs.
 
 (* ================================================================================== *)
@@ -312,8 +313,12 @@ Section Proof.
         intros d Hd _. unfold prefixes in Hd. apply in_map_iff in Hd as (a & Ha & Hin).
         pose proof (existsb_false_In _ _ _ Hpre Hin) as Hs. cbn beta in Hs. rewrite Ha in Hs.
         cbn [nonempty andb starts] in Hs. now rewrite andb_true_r in Hs.
-      - (* placeholder: the prefix alone *)
-        destruct name; [|discriminate]. split; [exact Hk|]. intros Hnil.
+      - (* placeholder: the prefix alone, or followed by a harmless name *)
+        split.
+        { destruct name as [|x n']; [exact Hk|]. unfold scan_pre in Hatom. rewrite !andb_true_iff, !negb_true_iff in Hatom.
+          destruct Hatom as [[H1 H2] H3]. apply name_scan_of_pre; [exact Hk | exact H1 | right; exact H2 |].
+          intros c0 Hc0. exact (existsb_false_In _ _ _ H3 Hc0). }
+        intros Hnil.
         pose proof (pk_total E Hpo) as Htot. unfold total_ok in Htot. rewrite !andb_true_iff in Htot.
         destruct Htot as [_ Htot]. pose proof (forallb_In _ _ _ Htot (nth_error_In _ _ Hn)) as Hne.
         cbn [snd fst] in Hne. rewrite Hnil in Hne. discriminate.
@@ -559,3 +564,339 @@ Lemma alnum_facts_all_needed :
   forallb (fun c => negb (unamb_fmt_ok (flip ascii_alnum c) FORMAT_ASCII && unamb_fmt_ok (flip ascii_alnum c) FORMAT_LATEX))
           (nonalnum_chars ++ digits) = true.
 Proof. split; vm_compute; reflexivity. Qed.
+
+(* ================================================================================== *)
+(* 5. the unconditional term-level theorems                                            *)
+Section Final.
+  Variable ia : N -> bool.
+  Variable E : efmt.
+  Hypothesis Hpo : parse_ok E = true.
+  Hypothesis Hfo : unamb_fmt_ok ia E = true.
+
+  (* C09 / C10 in one statement: ANY surface tree (any spacing, any arms, derived copulas, images,
+     intervals ...) whose atoms are well-formed, written before any text the name scan stops at,
+     parses to its documented meaning and the cursor stops at its end *)
+  Theorem tree_parses : forall (F : Type) (s : sterm) (v : term) (k : str) (L : nat) (st : pstate F),
+    odesugar s = Some v -> satoms_ok ia E s = true -> stop_ok ia E k = true ->
+    wf F L st -> s_rest st = render E s ++ k ->
+    parse_term F ia E st = POk v (step F (length (render E s)) st).
+  Proof.
+    intros F s v k L st Hv Hs Hk Hwf Hrest.
+    apply (parse_term_render F ia E Hpo s v k L st Hv); [|exact Hwf|exact Hrest].
+    now apply unamb_of_satoms_ok.
+  Qed.
+
+  (* the derived copulas, subject / predicate arbitrary trees with well-formed atoms *)
+  Notation stmt_text cop sp0 sp1 sp2 sp3 s p :=
+    (statement_brackets_0 E ++ sp E sp0 ++ render E s ++ sp E sp1 ++ cop ++ sp E sp2 ++ render E p ++ sp E sp3 ++ statement_brackets_1 E).
+
+  Lemma stmt_unamb arm sp0 sp1 sp2 sp3 s p k :
+    is_some (nth_error parse_statement_arms arm) = true ->
+    satoms_ok ia E s = true -> satoms_ok ia E p = true -> stop_ok ia E k = true ->
+    unamb ia E (SStmt arm sp0 sp1 sp2 sp3 s p) k = true.
+  Proof. intros Ha Hs Hp Hk. apply unamb_of_satoms_ok; auto. cbn [satoms_ok]. now rewrite Ha, Hs, Hp. Qed.
+
+  Theorem instance_parses_wf : forall F sp0 sp1 sp2 sp3 s p vs vp k L (st : pstate F),
+    odesugar s = Some vs -> odesugar p = Some vp ->
+    satoms_ok ia E s = true -> satoms_ok ia E p = true -> stop_ok ia E k = true ->
+    wf F L st -> s_rest st = stmt_text (statement_copula_instance E) sp0 sp1 sp2 sp3 s p ++ k ->
+    parse_term F ia E st =
+      POk (TBox2 Inheritance (TSet SetExtension [vs]) vp)
+          (step F (length (stmt_text (statement_copula_instance E) sp0 sp1 sp2 sp3 s p)) st).
+  Proof.
+    intros F sp0 sp1 sp2 sp3 s p vs vp k L st Hs Hp Has Hap Hk Hwf Hrest.
+    apply (instance_parses F ia E Hpo sp0 sp1 sp2 sp3 s p vs vp k L st Hs Hp); auto. now apply stmt_unamb.
+  Qed.
+
+  Theorem property_parses_wf : forall F sp0 sp1 sp2 sp3 s p vs vp k L (st : pstate F),
+    odesugar s = Some vs -> odesugar p = Some vp ->
+    satoms_ok ia E s = true -> satoms_ok ia E p = true -> stop_ok ia E k = true ->
+    wf F L st -> s_rest st = stmt_text (statement_copula_property E) sp0 sp1 sp2 sp3 s p ++ k ->
+    parse_term F ia E st =
+      POk (TBox2 Inheritance vs (TSet SetIntension [vp]))
+          (step F (length (stmt_text (statement_copula_property E) sp0 sp1 sp2 sp3 s p)) st).
+  Proof.
+    intros F sp0 sp1 sp2 sp3 s p vs vp k L st Hs Hp Has Hap Hk Hwf Hrest.
+    apply (property_parses F ia E Hpo sp0 sp1 sp2 sp3 s p vs vp k L st Hs Hp); auto. now apply stmt_unamb.
+  Qed.
+
+  Theorem instance_property_parses_wf : forall F sp0 sp1 sp2 sp3 s p vs vp k L (st : pstate F),
+    odesugar s = Some vs -> odesugar p = Some vp ->
+    satoms_ok ia E s = true -> satoms_ok ia E p = true -> stop_ok ia E k = true ->
+    wf F L st -> s_rest st = stmt_text (statement_copula_instance_property E) sp0 sp1 sp2 sp3 s p ++ k ->
+    parse_term F ia E st =
+      POk (TBox2 Inheritance (TSet SetExtension [vs]) (TSet SetIntension [vp]))
+          (step F (length (stmt_text (statement_copula_instance_property E) sp0 sp1 sp2 sp3 s p)) st).
+  Proof.
+    intros F sp0 sp1 sp2 sp3 s p vs vp k L st Hs Hp Has Hap Hk Hwf Hrest.
+    apply (instance_property_parses F ia E Hpo sp0 sp1 sp2 sp3 s p vs vp k L st Hs Hp); auto. now apply stmt_unamb.
+  Qed.
+
+  Theorem equiv_retro_parses_wf : forall F sp0 sp1 sp2 sp3 s p vs vp k L (st : pstate F),
+    odesugar s = Some vs -> odesugar p = Some vp ->
+    satoms_ok ia E s = true -> satoms_ok ia E p = true -> stop_ok ia E k = true ->
+    wf F L st -> s_rest st = stmt_text (statement_copula_equivalence_retrospective E) sp0 sp1 sp2 sp3 s p ++ k ->
+    parse_term F ia E st =
+      POk (TBox2 EquivalencePredictive vp vs)
+          (step F (length (stmt_text (statement_copula_equivalence_retrospective E) sp0 sp1 sp2 sp3 s p)) st).
+  Proof.
+    intros F sp0 sp1 sp2 sp3 s p vs vp k L st Hs Hp Has Hap Hk Hwf Hrest.
+    apply (equiv_retro_parses F ia E Hpo sp0 sp1 sp2 sp3 s p vs vp k L st Hs Hp); auto. now apply stmt_unamb.
+  Qed.
+
+  Notation image_text con sp0 gaps items sp1 :=
+    (compound_brackets_0 E ++ sp E sp0 ++ con ++ render_items E (render E) gaps true 0 items ++ sp E sp1 ++ compound_brackets_1 E).
+
+  Theorem image_parses_wf : forall F (ext : bool) sp0 gaps items sp1 pre post k L (st : pstate F),
+    omap odesugar items = Some (pre ++ placeholder :: post) ->
+    forallb (fun x => negb (term_eqb x placeholder)) pre = true ->
+    forallb (satoms_ok ia E) items = true -> stop_ok ia E k = true ->
+    wf F L st ->
+    s_rest st = image_text (if ext then compound_connecter_image_extension E else compound_connecter_image_intension E)
+                           sp0 gaps items sp1 ++ k ->
+    parse_term F ia E st =
+      POk (TImg (if ext then ImageExtension else ImageIntension) (N.of_nat (length pre)) (pre ++ post))
+          (step F (length (image_text (if ext then compound_connecter_image_extension E else compound_connecter_image_intension E)
+                                      sp0 gaps items sp1)) st).
+  Proof.
+    intros F ext sp0 gaps items sp1 pre post k L st Hitems Hpre Hs Hk Hwf Hrest.
+    apply (image_parses F ia E Hpo ext sp0 gaps items sp1 pre post k L st Hitems Hpre); auto.
+    apply unamb_of_satoms_ok; auto.
+  Qed.
+
+  (* ---- formatter output ---- *)
+  Hypothesis Hsp : fmt_space_ok E = true.
+  Hypothesis Hcov : arms_cover E = true.
+
+  Theorem unamb_of_wf : forall t, wf_term ia E t = true -> unamb ia E (sst E t) [] = true.
+  Proof. intros t Hw. apply unamb_of_satoms_ok; auto. now apply sst_satoms_ok. Qed.
+
+  (* every re-spacing of the formatter's output, in front of any text the scan stops at *)
+  Theorem unamb_of_wf_spaced : forall t s k,
+    wf_term ia E t = true -> same_shape s (sst E t) -> stop_ok ia E k = true -> unamb ia E s k = true.
+  Proof.
+    intros t s k Hw Hsh Hk. apply unamb_of_satoms_ok; auto.
+    rewrite (satoms_ok_shape ia E _ _ Hsh). now apply sst_satoms_ok.
+  Qed.
+
+  Theorem unamb_of_wf_respace : forall n t, wf_term ia E t = true -> unamb ia E (respace n (sst E t)) [] = true.
+  Proof. intros n t Hw. apply (unamb_of_wf_spaced t); auto. apply same_shape_respace. Qed.
+
+  (* C01, term level, unconditional *)
+  Theorem roundtrip_wf : forall (F : Type) (t : term), wf_term ia E t = true ->
+    parse_term F ia E (new_state F (fmt_term E t)) =
+    POk t (step F (length (fmt_term E t)) (new_state F (fmt_term E t))).
+  Proof.
+    intros F t Hw. apply term_roundtrip; auto; [exact (pk_total E Hpo) | now apply unamb_of_wf].
+  Qed.
+
+  (* C09 on formatter output: the text of a well-formed term with ANY spacing at its token boundaries,
+     followed by any k the scan stops at, parses to the term *)
+  Theorem spaced_roundtrip_wf : forall (F : Type) (t : term) (s : sterm) (k : str) (L : nat) (st : pstate F),
+    wf_term ia E t = true -> same_shape s (sst E t) -> stop_ok ia E k = true ->
+    wf F L st -> s_rest st = render E s ++ k ->
+    parse_term F ia E st = POk t (step F (length (render E s)) st).
+  Proof.
+    intros F t s k L st Hw Hsh Hk Hwf Hrest.
+    destruct (sst_of_desugar ia E Hcov t Hw) as (s0 & Hs0 & Hd).
+    assert (Hsst : sst E t = s0) by (unfold sst; now rewrite Hs0).
+    apply (parse_term_render F ia E Hpo s t k L st); auto.
+    - rewrite (same_shape_meaning _ _ Hsh), Hsst. exact Hd.
+    - now apply (unamb_of_wf_spaced t).
+  Qed.
+
+  Corollary respaced_roundtrip_wf : forall (F : Type) (n : nat) (t : term), wf_term ia E t = true ->
+    parse_term F ia E (new_state F (render E (respace n (sst E t)))) =
+    POk t (step F (length (render E (respace n (sst E t)))) (new_state F (render E (respace n (sst E t))))).
+  Proof.
+    intros F n t Hw.
+    apply (spaced_roundtrip_wf F t (respace n (sst E t)) [] _ _ Hw (same_shape_respace n _) eq_refl (wf_new_state F _)).
+    cbn [new_state s_rest]. now rewrite app_nil_r.
+  Qed.
+End Final.
+
+(* ---- the two formats ---- *)
+Lemma ascii_side : parse_ok FORMAT_ASCII = true /\ fmt_space_ok FORMAT_ASCII = true /\ arms_cover FORMAT_ASCII = true.
+Proof. vm_compute. repeat split; reflexivity. Qed.
+Lemma latex_side : parse_ok FORMAT_LATEX = true /\ fmt_space_ok FORMAT_LATEX = true /\ arms_cover FORMAT_LATEX = true.
+Proof. vm_compute. repeat split; reflexivity. Qed.
+
+Theorem unamb_of_wf_ascii : forall ia, alnum_facts ia = true -> forall t,
+  wf_term ia FORMAT_ASCII t = true -> unamb ia FORMAT_ASCII (sst FORMAT_ASCII t) [] = true.
+Proof.
+  intros ia H. destruct ascii_side as (H1 & H2 & H3). apply unamb_of_wf; auto. now apply unamb_fmt_ok_ascii.
+Qed.
+
+Theorem unamb_of_wf_latex : forall ia, alnum_facts ia = true -> forall t,
+  wf_term ia FORMAT_LATEX t = true -> unamb ia FORMAT_LATEX (sst FORMAT_LATEX t) [] = true.
+Proof.
+  intros ia H. destruct latex_side as (H1 & H2 & H3). apply unamb_of_wf; auto. now apply unamb_fmt_ok_latex.
+Qed.
+
+Theorem C01_term_ascii : forall ia, alnum_facts ia = true -> forall (F : Type) (t : term),
+  wf_term ia FORMAT_ASCII t = true ->
+  parse_term F ia FORMAT_ASCII (new_state F (fmt_term FORMAT_ASCII t)) =
+  POk t (step F (length (fmt_term FORMAT_ASCII t)) (new_state F (fmt_term FORMAT_ASCII t))).
+Proof.
+  intros ia H. destruct ascii_side as (H1 & H2 & H3). apply roundtrip_wf; auto. now apply unamb_fmt_ok_ascii.
+Qed.
+
+Theorem C01_term_latex : forall ia, alnum_facts ia = true -> forall (F : Type) (t : term),
+  wf_term ia FORMAT_LATEX t = true ->
+  parse_term F ia FORMAT_LATEX (new_state F (fmt_term FORMAT_LATEX t)) =
+  POk t (step F (length (fmt_term FORMAT_LATEX t)) (new_state F (fmt_term FORMAT_LATEX t))).
+Proof.
+  intros ia H. destruct latex_side as (H1 & H2 & H3). apply roundtrip_wf; auto. now apply unamb_fmt_ok_latex.
+Qed.
+
+(* E is ASCII or LaTeX *)
+Definition plain (E : efmt) : Prop := E = FORMAT_ASCII \/ E = FORMAT_LATEX.
+
+Lemma plain_side ia E : alnum_facts ia = true -> plain E ->
+  parse_ok E = true /\ fmt_space_ok E = true /\ arms_cover E = true /\ unamb_fmt_ok ia E = true.
+Proof.
+  intros H [HE|HE]; subst E.
+  - destruct ascii_side as (H1 & H2 & H3). repeat split; auto. now apply unamb_fmt_ok_ascii.
+  - destruct latex_side as (H1 & H2 & H3). repeat split; auto. now apply unamb_fmt_ok_latex.
+Qed.
+
+Theorem C01_term_plain : forall ia E, alnum_facts ia = true -> plain E -> forall (F : Type) (t : term),
+  wf_term ia E t = true ->
+  parse_term F ia E (new_state F (fmt_term E t)) = POk t (step F (length (fmt_term E t)) (new_state F (fmt_term E t))).
+Proof. intros ia E H HE. destruct (plain_side ia E H HE) as (H1 & H2 & H3 & H4). now apply roundtrip_wf. Qed.
+
+Theorem C09_term_plain : forall ia E, alnum_facts ia = true -> plain E ->
+  forall (F : Type) (t : term) (s : sterm) (k : str) (L : nat) (st : pstate F),
+    wf_term ia E t = true -> same_shape s (sst E t) -> stop_ok ia E k = true ->
+    wf F L st -> s_rest st = render E s ++ k ->
+    parse_term F ia E st = POk t (step F (length (render E s)) st).
+Proof. intros ia E H HE. destruct (plain_side ia E H HE) as (H1 & H2 & H3 & H4). now apply spaced_roundtrip_wf. Qed.
+
+Theorem C09_respaced_plain : forall ia E, alnum_facts ia = true -> plain E ->
+  forall (F : Type) (n : nat) (t : term), wf_term ia E t = true ->
+    parse_term F ia E (new_state F (render E (respace n (sst E t)))) =
+    POk t (step F (length (render E (respace n (sst E t)))) (new_state F (render E (respace n (sst E t))))).
+Proof. intros ia E H HE. destruct (plain_side ia E H HE) as (H1 & H2 & H3 & H4). now apply respaced_roundtrip_wf. Qed.
+
+Theorem tree_parses_plain : forall ia E, alnum_facts ia = true -> plain E ->
+  forall (F : Type) (s : sterm) (v : term) (k : str) (L : nat) (st : pstate F),
+    odesugar s = Some v -> satoms_ok ia E s = true -> stop_ok ia E k = true ->
+    wf F L st -> s_rest st = render E s ++ k ->
+    parse_term F ia E st = POk v (step F (length (render E s)) st).
+Proof. intros ia E H HE. destruct (plain_side ia E H HE) as (H1 & H2 & H3 & H4). now apply tree_parses. Qed.
+
+(* ================================================================================== *)
+(* 6. Han: the name condition does NOT follow from well-formedness (class K3)           *)
+(* Implication(Word "x将", Word "y") prints as 「x将得y」, which reads  x 将得 y  *)
+Definition k3_term : term := TBox2 Implication (TName Word [120; 23558]) (TName Word [121]).
+Definition k3_reading : term := TBox2 ImplicationPredictive (TName Word [120]) (TName Word [121]).
+
+Lemma K3_witness :
+  wf_term is_alnum_std FORMAT_HAN k3_term = true /\
+  unamb is_alnum_std FORMAT_HAN (sst FORMAT_HAN k3_term) [] = false /\
+  fmt_term FORMAT_HAN k3_term = [12300; 120; 23558; 24471; 121; 12301] /\
+  fmt_term FORMAT_HAN k3_reading = fmt_term FORMAT_HAN k3_term /\
+  exists st', parse_term unit is_alnum_std FORMAT_HAN (new_state unit (fmt_term FORMAT_HAN k3_term)) = POk k3_reading st'.
+Proof.
+  repeat split; try (vm_compute; reflexivity). eexists. vm_compute. reflexivity.
+Qed.
+
+(* non-vacuity of the hypotheses of the unconditional theorems: a term with all 30 constructors *)
+Example ex_plain_hypotheses :
+  alnum_facts is_alnum_std = true /\
+  wf_term is_alnum_std FORMAT_ASCII ex_term = true /\ wf_term is_alnum_std FORMAT_LATEX ex_term = true.
+Proof. repeat split; vm_compute; reflexivity. Qed.
+
+(* ================================================================================== *)
+(* 7. statements for the Props files                                                   *)
+Lemma alnum_facts_meaning : forall ia : N -> bool,
+  alnum_facts ia =
+  forallb (fun c => negb (ia c)) [32; 40; 41; 44; 47; 60; 61; 62; 91; 92; 93; 123; 124; 125]
+  && forallb ia [48; 49; 50; 51; 52; 53; 54; 55; 56; 57].
+Proof. reflexivity. Qed.
+
+Lemma unamb_fmt_ok_meaning : forall (ia : N -> bool) (E : efmt),
+  unamb_fmt_ok ia E =
+  forallb (head_not_name ia E) (statement_brackets_1 E :: space_parse E :: compound_separator E :: list_right_brackets E)
+  && forallb (fun p => forallb (fun kw => match p with [] => head_not_name ia E kw | _ => incompat kw p end)
+                               ((space_parse E :: compound_separator E :: list_right_brackets E) ++ left_brackets E))
+             (map (fun a => fst a E) parse_atom_arms)
+  && prefix_order_ok ia E
+  && forallb (fun c => nonempty c
+                       && forallb (fun j => negb (forallb (name_charb ia E) (take j c)) || ends [45] (take j c))
+                                  (seq 1 (length c - 1))
+                       && negb (forallb is_ascii_digit c))
+             (gen_copulas E)
+  && forallb (name_charb ia E) [48; 49; 50; 51; 52; 53; 54; 55; 56; 57].
+Proof. reflexivity. Qed.
+
+Lemma satoms_ok_meaning : forall (ia : N -> bool) (E : efmt) (s : sterm),
+  satoms_ok ia E s =
+  match s with
+  | SAtom arm name =>
+      match nth_error parse_atom_arms arm with
+      | Some (_, AIUnit _) =>
+          match name with
+          | [] => true
+          | _ => forallb (name_charb ia E) name && negb (ends [45] name)
+                 && negb (existsb (fun c => has_infix c name) (gen_copulas E))
+          end
+      | Some (_, AIName _) => name_ok ia E name
+      | Some (_, AINum _) => nonempty name && forallb is_ascii_digit name
+      | None => false
+      end
+  | SSet _ _ _ items _ | SComp _ _ _ items _ => forallb (satoms_ok ia E) items
+  | SStmt arm _ _ _ _ x y => is_some (nth_error parse_statement_arms arm) && satoms_ok ia E x && satoms_ok ia E y
+  end.
+Proof. intros ia E s. destruct s; reflexivity. Qed.
+
+Lemma unamb_fmt_ok_plain : forall ia : N -> bool, alnum_facts ia = true ->
+  unamb_fmt_ok ia FORMAT_ASCII = true /\ unamb_fmt_ok ia FORMAT_LATEX = true.
+Proof. intros ia H. split; [now apply unamb_fmt_ok_ascii | now apply unamb_fmt_ok_latex]. Qed.
+
+Theorem C01_term_ascii_std : forall (F : Type) (t : term),
+  wf_term is_alnum_std FORMAT_ASCII t = true ->
+  parse_term F is_alnum_std FORMAT_ASCII (new_state F (fmt_term FORMAT_ASCII t)) =
+  POk t (step F (length (fmt_term FORMAT_ASCII t)) (new_state F (fmt_term FORMAT_ASCII t))).
+Proof. exact (C01_term_ascii is_alnum_std alnum_facts_std). Qed.
+
+Theorem C01_term_latex_std : forall (F : Type) (t : term),
+  wf_term is_alnum_std FORMAT_LATEX t = true ->
+  parse_term F is_alnum_std FORMAT_LATEX (new_state F (fmt_term FORMAT_LATEX t)) =
+  POk t (step F (length (fmt_term FORMAT_LATEX t)) (new_state F (fmt_term FORMAT_LATEX t))).
+Proof. exact (C01_term_latex is_alnum_std alnum_facts_std). Qed.
+
+Theorem C01_value_term_plain : forall (ia : N -> bool) (E : efmt), alnum_facts ia = true -> plain E ->
+  forall (F : Type) (v : narsese F), wf_value ia E v = true ->
+  let t := match v with NTerm t => t | NSentence s => s_term s | NTask k => s_term (fst k) end in
+  parse_term F ia E (new_state F (fmt_term E t)) = POk t (step F (length (fmt_term E t)) (new_state F (fmt_term E t))).
+Proof. intros ia E H HE F v Hw t. apply C01_term_plain; auto. destruct v; exact Hw. Qed.
+
+Lemma sst_renders : forall (ia : N -> bool) (E : efmt), fmt_space_ok E = true -> arms_cover E = true ->
+  forall t : term, wf_term ia E t = true -> fmt_term E t = render E (sst E t).
+Proof.
+  intros ia E Hsp Hcov t Hw. destruct (sst_of_desugar ia E Hcov t Hw) as (s & Hs & _).
+  unfold sst. rewrite Hs. now apply fmt_term_render.
+Qed.
+
+Lemma plain_tables : forall ia : N -> bool, alnum_facts ia = true ->
+  (parse_ok FORMAT_ASCII = true /\ unamb_fmt_ok ia FORMAT_ASCII = true) /\
+  (parse_ok FORMAT_LATEX = true /\ unamb_fmt_ok ia FORMAT_LATEX = true).
+Proof.
+  intros ia H. destruct ascii_side as (H1 & _). destruct latex_side as (H2 & _).
+  repeat split; auto; [now apply unamb_fmt_ok_ascii | now apply unamb_fmt_ok_latex].
+Qed.
+
+Example ex_nospace :
+  let t := TBox2 Inheritance (TName Word [97; 45; 98]) (TName Word [99]) in
+  wf_term is_alnum_std FORMAT_ASCII t = true /\
+  render FORMAT_ASCII (respace 0 (sst FORMAT_ASCII t)) = [60; 97; 45; 98; 45; 45; 62; 99; 62] /\
+  render FORMAT_ASCII (respace 2 (sst FORMAT_ASCII t)) =
+    [60; 32; 32; 97; 45; 98; 32; 32; 45; 45; 62; 32; 32; 99; 32; 32; 62].
+Proof. repeat split; vm_compute; reflexivity. Qed.
+
+Example ex_trees_satoms :
+  forallb (fun E => satoms_ok is_alnum_std E (ex_tree 0) && satoms_ok is_alnum_std E (ex_tree 3)
+                    && satoms_ok is_alnum_std E (ex_tree2 0) && satoms_ok is_alnum_std E (ex_tree2 2))
+          [FORMAT_ASCII; FORMAT_LATEX] = true.
+Proof. vm_compute. reflexivity. Qed.
